@@ -602,7 +602,7 @@ impl Prop for P {
                 .prop_map(|(shape, w, h, tiles)| Work::Render2 { shape, w, h, tiles }),
             3 => (shape2(), (1u32..=24, 1u32..=24, 1u32..=24), small_tiles(), xform_strategy())
                 .prop_map(|(shape, size, tiles, xform)| Work::Render3 { shape, size, tiles, xform }),
-            3 => (csg::csg(3, 0.4, 0.2, 0.5, false), 1u8..=tier.pick(4, 5))
+            3 => (csg::csg(3, 0.4, 0.2, 0.5, false), 0u8..=tier.pick(4, 5))
                 .prop_map(|(shape, depth)| Work::Mesh { shape, depth }),
         ];
         let cancel = prop_oneof![
